@@ -188,16 +188,19 @@ class DULServiceProvider(threading.Thread):
         try:
             while not self.is_killed:
                 self._check_network() or self._check_outgoing_pdu() or self._check_timer()  # pylint: disable=expression-not-assigned
-                try:
+                # All pending events are handled before connection is polled again. An
+                # acceptor starts with transport connection indication already queued, so if
+                # only one event was handled per iteration everything received from a fast
+                # peer would be acted upon one poll late, possibly after its disconnect
+                # had been noticed and the socket was gone.
+                while self.event:
                     evt = self.event.popleft()
-                except IndexError:
-                    continue
-                try:
-                    self.state_machine.action(evt)
-                except socket.error:
-                    # Transport connection was lost (e.g. reset by peer) while action was
-                    # writing to it: handle as transport connection closed indication
-                    self._connection_lost()
+                    try:
+                        self.state_machine.action(evt)
+                    except socket.error:
+                        # Transport connection was lost (e.g. reset by peer) while action was
+                        # writing to it: handle as transport connection closed indication
+                        self._connection_lost()
         except Exception:
             self.to_service_user.put(pdu.AAbortPDU(source=0, reason_diag=0))
             raise
